@@ -124,8 +124,38 @@ fn av_alphabet() -> Vec<(String, Vec<u8>)> {
         c[42..44].copy_from_slice(&max.to_le_bytes());
         v.push((format!("target info len {} maxlen {}", len, max), c));
     }
+    // TargetName content: not UTF-8 (OEM), odd length, lone surrogates (Unicode), with the Unicode flag set and cleared
+    for flags in [rn::DEFAULT_FLAGS, (rn::DEFAULT_FLAGS & !rn::F_UNICODE) | rn::F_OEM, rn::DEFAULT_FLAGS & !rn::F_UNICODE] {
+        for name in [&[0x53u8, 0xC9, 0x52, 0x56][..], &[0xFF, 0xFE, 0xFD][..], &[0xC3][..], &[0x00, 0xD8][..], &[0x00, 0xDC, 0x41, 0x00][..], &[0x41, 0x00, 0x42][..], &[0xF0, 0x9F, 0x98][..], &[][..], &[0x80; 300][..]] {
+            let ti = rn::av_bytes(&[ts.clone()], true);
+            let mut c = challenge_with(flags, &ti, None, None, Some(name.len() as u16), None);
+            // TargetName sits right after the header in challenge_with: overwrite / re-insert its bytes
+            let hdr = if flags & rn::F_VERSION != 0 { 56 } else { 48 };
+            let old_len = vref::bytes::utf16le("SRV").len();
+            c.splice(hdr..hdr + old_len, name.iter().copied());
+            // TargetInfo offset follows the name
+            let ti_off = (hdr + name.len()) as u32;
+            c[44..48].copy_from_slice(&ti_off.to_le_bytes());
+            v.push((format!("target name bytes {:02x?} flags {:#x}", &name[..name.len().min(6)], flags), c));
+        }
+    }
     v.push(("empty target info".into(), challenge_with(rn::DEFAULT_FLAGS, &[], None, None, None, None)));
     v.push(("duplicate timestamp".into(), challenge_with(rn::DEFAULT_FLAGS, &rn::av_bytes(&[ts.clone(), ts.clone()], true), None, None, None, None)));
+    v
+}
+
+/// final-round replies that are correctly sealed and signed under the session keys (a hostile server that knows the
+/// account can produce them; byte-level faults on the reply never get past the checksum)
+fn sealed_replies() -> Vec<crate::peer::FinalReply> {
+    use crate::peer::FinalReply as F;
+    let mut v = vec![];
+    for seq in [0u32, 1, 2, 0xFF, 0x100, 0x7FFF_FFFF, 0x8000_0000, 0xFFFF_FFFE, 0xFFFF_FFFF] {
+        v.push(F::SealedWithSeq(seq));
+    }
+    for n in [0usize, 1, 2, 15, 16, 17, 255, 256, 4096, 65535, 65536, 200_000] {
+        v.push(F::SealedBlob(n));
+    }
+    v.extend([F::SealedPrefix(0), F::SealedPrefix(1), F::SealedWithTrailing(1), F::SealedWithTrailing(70000), F::ZeroExtended(70000), F::Offset(-1), F::Offset(0)]);
     v
 }
 
@@ -247,6 +277,7 @@ impl Prop for C07 {
             ("e2e-pubkey", red),
             ("e2e-av", self.av_cases.len() as u64),
             ("e2e-ts", ts_variants().len() as u64 * 2),
+            ("e2e-sealed", sealed_replies().len() as u64 * 3),
             ("e2e-cert", CERTS.len() as u64 * 2),
             ("direct-faults", self.direct.as_ref().unwrap().total()),
             ("direct-av", self.av_cases.len() as u64),
@@ -270,12 +301,13 @@ impl Prop for C07 {
             "direct-faults" => json!(self.direct.as_ref().unwrap().get(i).1),
             "e2e-av" | "direct-av" => json!(self.av_cases[i as usize].0),
             "e2e-ts" | "direct-ts" => json!(ts_variants()[(i / 2) as usize].0),
+            "e2e-sealed" => json!(format!("{:?} certificate #{}", sealed_replies()[(i / 3) as usize], i % 3)),
             "e2e-cert" => json!(format!("{:?} check={}", CERTS[(i / 2) as usize], i % 2)),
             _ => json!(null),
         }})
     }
     fn rule(&self) -> String {
-        "cases: [e2e-*] the real cssp_connect inside the real Connector::connect over real TLS against the reference CredSSP server whose CHALLENGE TSRequest carries every single deviation (byte x value set, 16/32-bit boundary fields at every offset in both byte orders, truncations, extensions), whose pubKeyAuth reply carries {00, FF, truncate} at every offset, an AV-pair alphabet (every id 0..0x0C, 0xFF, 0x100, 0x7FFF, 0x8000, 0xFFFF x declared lengths {0,1,2,8,0xFFFF} x present bytes x with/without timestamp x with/without EOL; target-info/target-name descriptors at their boundaries; every flag bit toggled), TSRequest shapes (empty/missing/double negoTokens, 3/63/64/65/256/1000 negoTokens items, well-formed target information of 4000..65519 bytes, TargetInfoMaxLen != TargetInfoLen, errorCode, indefinite and 2^31/2^32/2^63 lengths, 200-deep nesting) in both rounds, and 19 server certificates (RSA-2048/4096, EC P-256, Ed25519, critical unknown extension, 20-byte / 40-byte / negative serial, empty subject, and DER-edited ones: X.509 v1, version 4, GeneralizedTime, invalid UTCTime, non-zero unused bits, BMPString / T61String subject, duplicate / empty extensions) with checking on/off; [direct-*] the same inputs, every single deviation with all 256 byte values, and every byte string of length <=2 (<=3) plus 3..5 (..6) byte strings over 8 boundary bytes, fed directly to read_ts_server_challenge, Ntlm::read_challenge_message, read_ts_validate and gss_unwrapex; thorough adds all pairs of {00, FF, truncate} faults on the direct entries. Oracle: returns; no panic/abort/hang; allocation rule.".into()
+        "cases: [e2e-*] the real cssp_connect inside the real Connector::connect over real TLS against the reference CredSSP server whose CHALLENGE TSRequest carries every single deviation (byte x value set, 16/32-bit boundary fields at every offset in both byte orders, truncations, extensions), whose pubKeyAuth reply carries {00, FF, truncate} at every offset, an AV-pair alphabet (every id 0..0x0C, 0xFF, 0x100, 0x7FFF, 0x8000, 0xFFFF x declared lengths {0,1,2,8,0xFFFF} x present bytes x with/without timestamp x with/without EOL; target-info/target-name descriptors at their boundaries; every flag bit toggled), TSRequest shapes (empty/missing/double negoTokens, 3/63/64/65/256/1000 negoTokens items, well-formed target information of 4000..65519 bytes, TargetInfoMaxLen != TargetInfoLen, TargetName bytes that are not valid UTF-8 / UTF-16 with the Unicode flag set and cleared, correctly sealed final replies numbered 0..2^32-1 or carrying 0..200000-byte values, errorCode, indefinite and 2^31/2^32/2^63 lengths, 200-deep nesting) in both rounds, and 19 server certificates (RSA-2048/4096, EC P-256, Ed25519, critical unknown extension, 20-byte / 40-byte / negative serial, empty subject, and DER-edited ones: X.509 v1, version 4, GeneralizedTime, invalid UTCTime, non-zero unused bits, BMPString / T61String subject, duplicate / empty extensions) with checking on/off; [direct-*] the same inputs, every single deviation with all 256 byte values, and every byte string of length <=2 (<=3) plus 3..5 (..6) byte strings over 8 boundary bytes, fed directly to read_ts_server_challenge, Ntlm::read_challenge_message, read_ts_validate and gss_unwrapex; thorough adds all pairs of {00, FF, truncate} faults on the direct entries. Oracle: returns; no panic/abort/hang; allocation rule.".into()
     }
     fn assumptions(&self) -> Vec<String> {
         vec!["memory rule: single request > 1 MiB or peak > 16 MiB + 1024 x bytes received".into()]
@@ -325,6 +357,19 @@ impl Prop for C07 {
                 let v = ts_variants()[(i / 2) as usize].1.clone();
                 let msg = if i % 2 == 0 { "cssp_challenge" } else { "cssp_pubkey" };
                 e2e(vec![Deviation { msg: msg.into(), kind: DevKind::Replace(v) }], Cert::A, false)
+            }
+            "e2e-sealed" => {
+                let reply = sealed_replies()[(i / 3) as usize].clone();
+                let cert = [Cert::A, Cert::B, Cert::Ed25519][(i % 3) as usize];
+                let cfg = ConnCfg::default();
+                match tls_connect(&cfg, ServerParams { selected: 2, final_reply: reply.clone(), ..Default::default() }, vec![], cert) {
+                    Err(e) => Outcome::fail("setup", "machinery", e),
+                    Ok(t) => {
+                        let res = if t.client.is_some() { "ok".to_string() } else { err_class(t.error.as_deref().unwrap_or("")) };
+                        let kind = format!("{:?}", reply).split('(').next().unwrap_or("").to_string();
+                        Outcome::pass(format!("e2e-sealed:{}:{}", kind, res), true)
+                    }
+                }
             }
             "e2e-cert" => {
                 let cert = CERTS[(i / 2) as usize];
